@@ -17,7 +17,7 @@ import (
 // the change is applied to it, and the same check (quick tier, a fresh process) is run on the copy: it must report a
 // violation.  A rule whose expected number of findings is zero ("nothing in the library calls X", "no shared writes")
 // cannot otherwise be told from a rule that has gone blind.  Nothing is executed but the analyser itself; a change that
-// no longer applies to the current tree is counted as skipped, not as a failure.
+// no longer applies exactly (no fuzz) to the current tree, or no longer type-checks there, is counted as skipped.
 func canaries(p *rules.Prop, R *core.Report, repo, verif string) {
 	summary := map[string]any{}
 	defer func() { R.Analysed["canaries"] = summary }()
@@ -51,8 +51,10 @@ func canaries(p *rules.Prop, R *core.Report, repo, verif string) {
 				skipped = append(skipped, name+" (copy failed: "+strings.TrimSpace(string(out))+")")
 				return
 			}
-			if _, err := exec.Command("patch", "-p1", "-s", "-f", "--no-backup-if-mismatch", "-d", tmp+"/repo", "-i", patch).CombinedOutput(); err != nil {
-				skipped = append(skipped, name+" (does not apply to the current tree)")
+			// exactly means: no fuzz and no offset — a hunk that only fits somewhere else may land on a look-alike
+			// construct where the change is harmless
+			if out, err := exec.Command("patch", "-p1", "-f", "--fuzz=0", "--no-backup-if-mismatch", "-d", tmp+"/repo", "-i", patch).CombinedOutput(); err != nil || strings.Contains(string(out), "offset") || strings.Contains(string(out), "fuzz") {
+				skipped = append(skipped, name+" (does not apply exactly, at its own place, to the current tree)")
 				return
 			}
 			os.MkdirAll(tmp+"/verif/evidence", 0o755)
@@ -62,6 +64,10 @@ func canaries(p *rules.Prop, R *core.Report, repo, verif string) {
 			cmd.Env = os.Environ()
 			out, _ := cmd.CombinedOutput()
 			rc := cmd.ProcessState.ExitCode()
+			if strings.Contains(string(out), "does not load/type-check") {
+				skipped = append(skipped, name+" (applied, but the result does not type-check on the current tree)")
+				return
+			}
 			if rc == 1 && strings.Contains(string(out), "VIOLATION property="+p.ID) {
 				fired = append(fired, name)
 				R.OK("framework", "canary:"+name, "stored violating change "+rel+" applied to a scratch copy of the analysed tree", "", "the check reports it")
